@@ -194,14 +194,29 @@ Definition obs_eqb (a b : bool * list N * store) : bool :=
   let '(ok1, req1, s1) := a in let '(ok2, req2, s2) := b in
   Bool.eqb ok1 ok2 && nlist_eqb req1 req2 && same_store s1 s2.
 
-(** the property for LoadTRCs: nothing whose validity starts in the future gets in *)
-Definition load_oracle (now : Z) (pre post : store) : bool :=
-  forallb (fun t => in_store t pre || (t_nb t <=? now)%Z) post.
+(** what a "latest" lookup (SignedTRC with the wildcard id) must return for a
+    store: nothing if the ISD has no TRC, otherwise a stored TRC of the ISD that
+    no stored TRC of the ISD exceeds in (base, serial) *)
+Definition latest_key (s : store) (isd : N) : list N :=
+  match latest_trc s isd with Some l => key l | None => [] end.
+Definition latest_oracle (s : store) (isd : N) (k : list N) : bool :=
+  match k with
+  | [] => forallb (fun t => negb (t_isd t =? isd)) s
+  | _ => existsb (fun l => keys_eqb (key l) k && (t_isd l =? isd)
+                           && forallb (fun t => negb (t_isd t =? isd) || id_le t l) s) s
+  end.
+
+(** the property for LoadTRCs: nothing whose validity starts in the future gets
+    in, and the latest TRC afterwards is the greatest stored one (no regression,
+    whatever the order of the files) *)
+Definition load_oracle (now : Z) (pre post : store) (latest : list N) : bool :=
+  forallb (fun t => in_store t pre || (t_nb t <=? now)%Z) post && latest_oracle post 1 latest.
 
 Inductive case :=
 | CHist (init : store) (ops : list op) (impl : list (bool * list N * store))
 | CLoad (now : Z) (init : store) (files : list (N * file))
-        (impl_err : bool) (impl_loaded impl_ignored : list N) (impl_store : store).
+        (impl_err : bool) (impl_loaded impl_ignored : list N) (impl_store : store)
+        (impl_latest : list N).      (* key of SignedTRC(ISD 1, latest) afterwards, [] = none *)
 
 Definition set_eqb (a b : list N) : bool :=
   (N.of_nat (length a) =? N.of_nat (length b)) && forallb (fun x => mem x b) a && forallb (fun x => mem x a) b.
@@ -210,10 +225,11 @@ Definition check (c : case) : N :=
   match c with
   | CHist init ops impl =>
     Check.verdict (list_eqb obs_eqb (trace verify_update init ops) impl) (hist_oracle init ops impl)
-  | CLoad now init files e l i st =>
+  | CLoad now init files e l i st lk =>
     let '(e', l', i', st') := load_trcs now files init [] [] in
-    Check.verdict (Bool.eqb e e' && set_eqb l l' && set_eqb i i' && same_store st st')
-                  (load_oracle now init st)
+    Check.verdict (Bool.eqb e e' && set_eqb l l' && set_eqb i i' && same_store st st'
+                   && keys_eqb lk (latest_key st' 1))
+                  (load_oracle now init st lk)
   end.
 
 Definition diag (c : case) : list (N * list N * list (list N)) :=
@@ -221,9 +237,9 @@ Definition diag (c : case) : list (N * list N * list (list N)) :=
   | CHist init ops _ =>
     map (fun x : bool * list N * store => let '(ok, req, s) := x in ((if ok then 1 else 0), req, map key s))
         (trace verify_update init ops)
-  | CLoad now init files _ _ _ _ =>
+  | CLoad now init files _ _ _ _ _ =>
     let '(e', l', i', st') := load_trcs now files init [] [] in
-    [((if e' then 1 else 0), l', [i']); (0, @nil N, map key st')]
+    [((if e' then 1 else 0), l', [i']); (0, latest_key st' 1, map key st')]
   end.
 
 End TrustStore.
